@@ -45,7 +45,7 @@ TraceInit ==
   /\ next = 0 /\ head = 0 /\ nextId = 0 /\ done = FALSE
   /\ failed = EmptyFn /\ inRetry = EmptyFn /\ jobs = EmptyFn
   /\ persisted = None /\ snap = None /\ bgPrev = 0
-  /\ storeHead = TailH
+  /\ storeHead = TailH /\ tail = TailH
   /\ sampledOK = {}
   /\ budget = [fail |-> FailBudget, cancel |-> CancelBudget, stop |-> StopBudget]
 
@@ -56,13 +56,14 @@ TReset ==
   /\ next' = 0 /\ head' = 0 /\ nextId' = 0 /\ done' = FALSE
   /\ failed' = EmptyFn /\ inRetry' = EmptyFn /\ jobs' = EmptyFn
   /\ persisted' = None /\ snap' = None /\ bgPrev' = 0
-  /\ storeHead' = Ev.storeHead
+  /\ storeHead' = Ev.storeHead /\ tail' = TailH
   /\ sampledOK' = {}
   /\ budget' = [fail |-> FailBudget, cancel |-> CancelBudget, stop |-> StopBudget]
 
 Skip(e) == IsEvent(e) /\ UNCHANGED vars
 
 TStoreAdvance == IsEvent("storeadvance") /\ StoreAdvance(Ev.h)
+TTailAdvance == IsEvent("tailadvance") /\ TailAdvance(Ev.h)
 
 (* resumed workers are spawned (and logged) before the "resume" hook: skipped here, matched there *)
 TSpawnBeforeResume == IsEvent("spawn") /\ phase = "stopped" /\ UNCHANGED vars
@@ -102,7 +103,7 @@ TCtxDone ==
   /\ phase = "stopping" /\ cpc = "select"
   /\ phase' = "cancelled" /\ cpc' = "gone"
   /\ UNCHANGED <<next, head, failed, inRetry, jobs, nextId, done, persisted, snap, bgPrev,
-                 storeHead, sampledOK, budget>>
+                 storeHead, tail, sampledOK, budget>>
 
 TSet == IsEvent("set") /\ WorkerStep(Ev.id, IF Ev.err THEN "fail" ELSE "ok")
         /\ jobs'[Ev.id].curr = Ev.h
@@ -117,7 +118,7 @@ TStopped == IsEvent("stopped") /\ StopFinal /\ persisted' = CpOfJson(Ev.cp2)
 TCrash == IsEvent("crash") /\ Crash
 
 TraceNext ==
-  \/ TReset \/ TStoreAdvance \/ TSpawnBeforeResume \/ TResume \/ TSpawn \/ TSelect \/ TNewHead
+  \/ TReset \/ TStoreAdvance \/ TTailAdvance \/ TSpawnBeforeResume \/ TResume \/ TSpawn \/ TSelect \/ TNewHead
   \/ TResult \/ TPoke \/ TBgPoke \/ TBgDone \/ TStopPoke \/ TExpire \/ TCtxDone \/ TSet
   \/ TSilentExit \/ TDropped \/ TGone \/ TStopped \/ TCrash
 
